@@ -4,6 +4,7 @@ package main
 // monitors for C03 (control), C04 (sequence / replay), C05 (create once, tombstone), C11 (id = key).
 
 import (
+	"sort"
 	"encoding/json"
 	"fmt"
 	"os"
@@ -34,11 +35,22 @@ func runChainProfile(p profileSpec, seed uint64, n int, out string, replay strin
 	distinct := map[string]bool{}
 	nontrivial := 0
 	total := 0
+	var hashLines []string
 	run := func(lines []string) {
 		x := NewExec(o)
 		x.Mons = p.monitors()
 		x.WantNode, x.WantConc = p.node, p.conc
 		x.Run(lines)
+		if x.Node != nil { // the application hash of every committed height: compared between processes (C09)
+			var hs []int64
+			for h := range x.Node.hashes {
+				hs = append(hs, h)
+			}
+			sort.Slice(hs, func(i, j int) bool { return hs[i] < hs[j] })
+			for _, h := range hs {
+				hashLines = append(hashLines, fmt.Sprintf("%d %d %x", total, h, x.Node.hashes[h]))
+			}
+		}
 		if x.Node != nil && x.Node.conc != nil {
 			x.Node.conc.finish(x)
 		}
@@ -85,6 +97,9 @@ func runChainProfile(p profileSpec, seed uint64, n int, out string, replay strin
 		}
 	}
 	o.Close()
+	if hashLines != nil {
+		must(os.WriteFile(out+"/hashes.txt", []byte(strings.Join(hashLines, "\n")+"\n"), 0o644))
+	}
 	if findings == nil {
 		findings = []finding{}
 	}
